@@ -931,6 +931,31 @@ def direct_checks(ctx, case, info):
             if bad:
                 violation(ctx, case, "noise-not-fixed-at-release", f"with n={n_}: {bad}", {"n": n_})
                 return
+    # --- 2c. Snapping: the release is proportional to the sensitivity (compare on the sensitivity-1 frame, same random bits)
+    if kind == "snap" and p["sens"] != 0:
+        lo1, hi1, x1 = p["lo"], p["hi"], xs[0]
+        unit = run("snap", {"eps": p["eps"], "sens": 1.0, "lo": lo1, "hi": hi1}, x1, sc)
+        if unit is not None:
+            r1 = float(unit[0])
+            lam = float(unit[2]._get_nearest_power_of_2(1.0 / unit[2].effective_epsilon()))
+            for s_ in (0.25, 4.0, 2.0 ** -10, 2.0 ** 10, 1e-3, 1e3):
+                ps = {"eps": p["eps"], "sens": s_, "lo": lo1 * s_, "hi": hi1 * s_}
+                rs_ = run("snap", ps, x1 * s_, sc)
+                if rs_ is None:
+                    continue
+                a, b = (float(rs_[0]) - ps["lo"]) / s_, r1 - lo1
+                pow2 = math.frexp(s_)[0] == 0.5
+                tol = 0.0 if pow2 else 1e-9 * (1 + abs(a) + abs(lo1) + abs(hi1))
+                if abs(a - b) <= tol:
+                    continue
+                if not pow2 and abs(abs(a - b) - lam) <= 1e-6 * lam:
+                    ctx.boundary_skipped += 1          # x·s is rounded: the noisy value may sit on a grid mid-point
+                    continue
+                violation(ctx, case, "nonlinear-scale",
+                          f"Snapping(sensitivity={s_!r}, lower={ps['lo']!r}, upper={ps['hi']!r}).randomise({x1 * s_!r}) releases "
+                          f"{float(rs_[0])!r}, i.e. {a!r} above the lower bound in units of the sensitivity; the sensitivity-1 mechanism on "
+                          f"[{lo1!r}, {hi1!r}] releases {r1!r}, i.e. {b!r} above its lower bound, on the same random bits (grid {lam!r})")
+                return
     # --- 3. truncation / folding = post-processing of the plain mechanism's output for the same stream
     if kind in ("trunc", "fold"):
         for x, rr in ok:
@@ -1530,6 +1555,49 @@ def param_type_case(tc, r):
             f"{a[0]!r} on the same stream"), "bad"
 
 
+INT_BOUNDS = [("uint8", 0, 200), ("int8", -100, 100), ("int16", 0, 30000), ("int16", -20000, 20000), ("int32", 0, 2 ** 30 + 5),
+              ("int32", -2 ** 30, 2 ** 30), ("int64", 0, 2 ** 62 + 5), ("uint64", 0, 2 ** 63 + 5), ("uint16", 0, 40000), ("uint32", 0, 2 ** 31 + 7)]
+
+
+def int_bounds_case(kind, r):
+    """bounds handed over as narrow numpy INTEGER scalars whose doubled width / value does not fit the type: the release on a
+    scripted stream must be the one of the same mechanism with python-int bounds.  Returns (failure or None, case)."""
+    tname, lo, hi = r.choice(INT_BOUNDS)
+    w = hi - lo
+    ty = getattr(np, tname)
+    sens = max(1.0, w * r.choice([0.02, 0.1, 0.5]))
+    if kind == "snap":
+        sens = r.choice([1.0, 2.0, 0.5])
+    p = {"eps": r.loguniform(0.3, 3.0), "delta": 0.0, "sens": float(sens), "lo": lo, "hi": hi}
+    if kind == "snap":
+        p.pop("delta")
+    x = float(r.choice([hi - 1, lo + 1, (lo + hi) // 2, hi, lo]))
+    sc = {"u": [r.u01() for _ in range(4 * 31 if kind == "bdom" else 4)], "rs": r.chance(0.5),
+          "bits": [r.randint(0, 1), r.randint(0, 2 ** 52 - 1), r.randint(1, 2 ** 32 - 1)]}
+    case = {"kind": kind, "params": p, "type": tname, "x": x, "script": sc}
+    return int_bounds_eval(case), case
+
+
+def int_bounds_eval(case):
+    kind, p, x, sc = case["kind"], case["params"], case["x"], case["script"]
+    ty = getattr(np, case["type"])
+    pt = dict(p, lo=ty(p["lo"]), hi=ty(p["hi"]))
+    with np.errstate(all="ignore"), __import__("warnings").catch_warnings():
+        __import__("warnings").simplefilter("ignore")
+        a = run(kind, p, x, sc)
+        try:
+            b = run(kind, pt, x, sc)
+        except (TypeError, ValueError):
+            return None                      # this type of bound is refused: nothing is released
+    if a is None or b is None:
+        return None
+    oa, ob = float(a[0]), float(np.asarray(b[0]).astype(np.float64))
+    if oa == ob or (oa != oa and ob != ob):
+        return None
+    return (f"{CLASSNAME[kind]}({p} with lower=np.{case['type']}({p['lo']}), upper=np.{case['type']}({p['hi']})).randomise({x!r}) "
+            f"releases {b[0]!r}; with python-int bounds it releases {a[0]!r} on the same stream")
+
+
 def run_types(ctx):
     r = ctx.fork("types")
     n = ctx.budget(25, 250)
@@ -1549,6 +1617,14 @@ def run_types(ctx):
             ctx.count("param_type_" + what.split(" ")[0])
             if bad:
                 ctx.violation(f"C03:{CLASSNAME[kind]}:noise-depends-on-parameter-dtype", bad, {"check": "param-type", "what": bad})
+            if kind in ("trunc", "fold", "bdom", "snap"):
+                for _ in range(2):
+                    bad, case = int_bounds_case(kind, rk)
+                    ctx.case(("int-bounds", kind, case["type"], case["x"]))
+                    if bad:
+                        ctx.violation(f"C03:{CLASSNAME[kind]}:integer-typed-bounds-wrap", bad, {"check": "int-bounds", "ib": case})
+                    else:
+                        ctx.trace_ok()
 
 
 # ------------------------------------------------------------------------------------------------ cross-instance state
@@ -2034,6 +2110,8 @@ def replay(ctx, data):
     if d.get("check") == "stat":
         res = stat_test(d["name"], d["params"], int(d["seed"]), int(d["n"]))
         return any(not rec[1] <= rec[2] for rec in res)
+    if d.get("check") == "int-bounds":
+        return int_bounds_eval(d["ib"]) is not None
     if d.get("check") == "cross-instance":
         return cross_instance_case(d["cc"]) is not None
     if d.get("check") == "input-type":
